@@ -94,8 +94,15 @@ func (t *Tokenizer) TokenizeWithLimits(limits TokenizerLimits, input *ast.Input)
 			lastWasSpread = true
 		case keyword.IDENT:
 			key := identkeyword.KeywordFromLiteral(input.ByteSlice(next.Literal))
+			// these keywords only start a new operation or fragment outside of a selection set;
+			// inside one they are ordinary names (e.g. a field called "query") and must be counted
+			startsDefinition := false
 			switch key {
 			case identkeyword.FRAGMENT, identkeyword.QUERY, identkeyword.MUTATION, identkeyword.SUBSCRIPTION:
+				startsDefinition = localDepth == 0
+			}
+			switch {
+			case startsDefinition:
 				// When starting a new operation or fragment, add the local depth peak
 				// to global depth and reset local tracking
 				globalDepth += localDepthPeak
